@@ -22,7 +22,8 @@ META = {
         "runs); half of the cases make exactly one node fail (unknown module / unknown attribute on "
         "an importable module or class / raising factory / wrong arguments / non-callable / a __type__ that is null, empty, 0 or false) at a random "
         "position; half of the trees whose root is a __type__ mapping are translated with extra construct keywords "
-        "(as the pipeline translator passes target=...), which only the root element may receive; a quarter of the valid trees hold one container object at two positions (what a YAML alias "
+        "(as the pipeline translator passes target=...), which only the root element may receive; half of those get a second failing element nested inside the first (the inner one must be reported); mapping keys "
+        "that are not strings (ints, floats, booleans, null); a quarter of the valid trees hold one container object at two positions (what a YAML alias "
         "produces): every position must be constructed on its own; optional non-empty root location. Non-trivial = at least two __type__ nodes; "
         "distinct by content."
     ),
@@ -79,6 +80,8 @@ def gen_tree(rnd, depth, density, counter, max_depth):
             node["__args__"] = [gen_tree(rnd, depth + 1, density, counter, max_depth) for _ in range(rnd.randint(0, 3))]
     for _ in range(rnd.randint(0, 4 if depth < 3 else 2)):
         key = rnd.choice(["a", "b", "c", "key", "x1", "items", "pool", "k.dot", "k[0]", "é"])
+        if not is_type and rnd.random() < 0.12:
+            key = rnd.choice([1, 0, 3, True, None, 0.5])  # YAML mappings may have keys that are not strings
         if key not in node:
             node[key] = gen_tree(rnd, depth + 1, density, counter, max_depth)
     if is_type and rnd.random() < 0.3:  # key order: __type__ need not come first
@@ -124,6 +127,12 @@ def gen_case(rnd, spec):
                 target["b"] = 5
                 target["zzz"] = 1  # unknown keyword
         fail = {"nid": target["nid"], "kind": kind}
+        # sometimes a second failing element *inside* the first one: bottom-up translation meets the inner one first
+        inner = [n for n, _ in type_nodes(target) if n is not target and n["__type__"] in FACTORIES]
+        if inner and kind != "wrong_args" and rnd.random() < 0.5:
+            victim = rnd.choice(inner)
+            victim["__type__"] = FAILURES[rnd.choice(["raises", "unknown_attr", "unknown_module", "not_callable"])]
+            fail["inner_nid"] = victim["nid"]
     share = None
     if fail is None and rnd.random() < 0.25:
         # the same container object at a second position (what a YAML alias produces)
@@ -298,6 +307,9 @@ def execute(case, result):
         node, path = by_nid[fail["nid"]]
         result.count("failing_trees")
         result.count("failing_%s" % fail["kind"])
+        if fail.get("inner_nid") is not None:
+            node, path = by_nid[fail["inner_nid"]]  # children are translated first: the inner failure is the one that is met
+            result.count("failing_trees_with_nested_second_failure")
         if err is None:
             problems.append("tree with a failing node (%s at %r) was accepted" % (fail["kind"], path))
         else:
@@ -305,7 +317,7 @@ def execute(case, result):
                 problems.append("failing node (%s) is at %r, error reports %r" % (fail["kind"], path, err.where))
             # no ancestor (anything that has the failing node in its subtree) may exist
             for n, p in nodes:
-                if n is not node and fail["nid"] in subtree_nids(n) and n["nid"] in seen:
+                if n is not node and node["nid"] in subtree_nids(n) and n["nid"] in seen:
                     problems.append("ancestor %r of the failing node was constructed" % p)
                     break
     return [(p, None) for p in problems[:3]]
@@ -377,7 +389,7 @@ def run_shard(spec):
 
 
 def finish(total, tier):
-    needed = ["valid_trees", "failing_trees", "nodes_constructed", "order_constraints_checked", "cases_with_fresh_imports",
+    needed = ["valid_trees", "failing_trees", "failing_trees_with_nested_second_failure", "nodes_constructed", "order_constraints_checked", "cases_with_fresh_imports",
               "translations_with_extra_construct_keywords",
               "trees_with_shared_container", "shared_type_nodes_checked"]
     needed += ["failing_" + k for k in FAILURES]
